@@ -323,7 +323,8 @@ def plan(tier, seed):
                      "_check_not_operator", "check_not", "check_prohibit", "check", "__call__", "errors")]
     pl.min_obligations = len(model.UNIVERSE) * 10
     pl.replay_builder = replay_builder
-    pl.assumptions = c01.ASSUMPTIONS + ["math.copysign(1, x) < 0 <=> x < 0 (negative zero not modelled)"]
+    pl.assumptions = c01.ASSUMPTIONS + ["math.copysign(1, x) < 0 <=> x < 0 (negative zero not modelled)",
+                                        "numeric attributes (degree, force) are finite numbers: mathematical reals in the obligations; infinities and NaN only through the bounded net C20-B"]
     pl.trusted_base = c01.TRUSTED
     pl.lemmas = ["L-IND (paper): totality, acceptance (well-formed node + clean children => no message) and completeness "
                  "(a listed defect yields a message at its own node; a message below is propagated by operations, groups, "
